@@ -126,7 +126,9 @@ def strategy(tier):
             'silent': st.booleans(),
             # asyncio: one more bystander is in the middle of its disconnect
             # (its handler suspended) while the offender's frames arrive
-            'mid_disc': st.booleans()})
+            'mid_disc': st.booleans(),
+            # ... by server.disconnect() or by the loss of its transport
+            'mid_how': st.sampled_from(['sdisc', 'lose'])})
     return st.sampled_from(['default', 'default', 'msgpack']).flatmap(mk)
 
 
@@ -239,7 +241,12 @@ def _run(case, w):
                 if not vst['gate'].done():
                     await vst['gate']
         sio.on('disconnect', disc_root, namespace='/')
-        vst['task'] = w.h.loop.spawn(sio.disconnect(vst['sid']))
+        if case.get('mid_how') == 'lose':
+            vsock = w.h.eio.sockets[w.t[tv]]
+            vst['task'] = w.h.loop.spawn(vsock.close(
+                wait=False, abort=True, reason=w.h.reason.TRANSPORT_ERROR))
+        else:
+            vst['task'] = w.h.loop.spawn(sio.disconnect(vst['sid']))
         w.h.loop.run_until_idle()
         w.recv(tv)
     log.clear()
@@ -419,6 +426,15 @@ def _run(case, w):
                             'step %d frame len %d: peak %d bytes'
                             % (step, flen, peak))
     if vst is not None:
+        # somebody else can still join while that disconnect is in progress
+        tj = w.open()
+        cj, pj = w.connect(tj, '/x')
+        if cj is None:
+            raise Violation('bystander-not-served',
+                            'a new client asked for /x while another '
+                            'client was being disconnected: %r' % (pj,))
+        by_sids.add(w.clients[cj]['sid'])
+        log.clear()
         vst['gate'].set_result(None)
         w.h.loop.run_until_idle()
         if w.t_alive[vst['t']]:
